@@ -37,13 +37,16 @@ def plans(prop, tier):
             quick.append(('crt4_hold90', S.consts(CRT=4, HOLDCFG=90, IDLEHOLD=1), 'Bound', dict(per_class=1, nrandom=100, depth=80)))
         if prop in ('C03', 'C02', 'C05'):
             quick.append(('hold0', S.consts(HOLDCFG=0, CRT=3), 'Bound', dict(per_class=1, nrandom=100, depth=80)))
+        if prop in ('C02', 'C13'):
+            # idle hold time 0: the restart is due in the instant in which the session ended
+            quick.append(('idle0', S.consts(IDLEHOLD=0), 'Bound', dict(per_class=1, nrandom=100, depth=80)))
         return quick
     out = [('base_full', base, 'Bound', dict(full_tour=True, nrandom=3000, depth=120))]
     for crt in (3, 4):
         out.append(('crt%d' % crt, S.consts(CRT=crt), 'Bound', dict(per_class=2, nrandom=1000, depth=120)))
     for hold in (0, 30, 90):
         out.append(('hold%d' % hold, S.consts(HOLDCFG=hold), 'Bound', dict(per_class=2, nrandom=1000, depth=120)))
-    for idle in (1, 3):
+    for idle in (0, 1, 3):
         out.append(('idle%d' % idle, S.consts(IDLEHOLD=idle), 'Bound', dict(per_class=2, nrandom=1000, depth=120)))
     out.append(('three_live', S.consts(MAXLIVE=3, PEERHOLDS=[0, 90]), 'Bound', dict(per_class=1, nrandom=1000, depth=120)))
     return out
@@ -208,7 +211,7 @@ def run(prop, tier, seed):
             if st_self is None:
                 st_self = selftest(prop, r['ndjson'], workdir)
             os.remove(r['ndjson'])
-        if prop in ('C03', 'C05', 'C10', 'C16', 'C18'):
+        if prop in ('C01', 'C03', 'C05', 'C10', 'C12', 'C16', 'C18'):
             nd, nscen = S.run_scenarios('C16' if prop == 'C18' else prop, tier, seed, workdir)
             if prop == 'C18':           # the counters are also judged on every hostile-input run of the C10 driver
                 nd2, nscen2 = S.run_scenarios('C10', tier, seed, workdir)
@@ -224,7 +227,7 @@ def run(prop, tier, seed):
             nrej = S.judge(prop, rej, nd, job, v)
             cov['configs'].append({'name': 'scenarios-' + prop, 'executions': nscen, 'trace_lines': vst.get('distinct', 1) - 1,
                                    'rejected_lines': nrej,
-                                   'what': 'C03: random schedules with a resolution of 1/3000 s around the keepalive / hold instants (hold 0,3,4,10,45,90,180 x peer hold); C05: configurations x session histories x peer OPEN variants + AS_PATH mode probe; '
+                                   'what': 'C01: a NOTIFICATION of every error code x subcode in OpenSent / OpenConfirm / Established; C12: random environment behaviour with TCP-MD5 configured and the socket option call failing on chosen attempts; C03: random schedules with a resolution of 1/3000 s around the keepalive / hold instants (hold 0,3,4,10,45,90,180 x peer hold); C05: configurations x session histories x peer OPEN variants + AS_PATH mode probe; '
                                            'C10: structure-aware and mutation fuzz (seeds: every bytes literal of the unit tests) in OpenSent/OpenConfirm/Established + known-good probe'})
             cov['traces_validated_against_impl'] += nscen
             cov['lines_validated'] += vst.get('distinct', 1) - 1
